@@ -38,6 +38,7 @@ type explorer struct {
 	seq     int
 	stop    func() bool
 	capped  bool
+	onExec  func(*inst) // told which instance is about to execute operations
 
 	memo map[string]int // committed-state digest -> largest remaining depth expanded
 
@@ -122,6 +123,9 @@ func modelStep(tm txModel, op string) txModel {
 // exploreState expands the committed state the live instance is in.
 func (e *explorer) exploreState(in *inst, prefix []event, used int) {
 	rem := e.depth - used
+	if e.onExec != nil {
+		e.onExec(in)
+	}
 	dg := e.outerDigest(in, prefix)
 	if best, ok := e.memo[dg]; ok && best >= rem {
 		return
@@ -142,6 +146,9 @@ func (e *explorer) exploreState(in *inst, prefix []event, used int) {
 			continue
 		}
 		in2 := e.fresh(prefix)
+		if e.onExec != nil {
+			e.onExec(in2)
+		}
 		in2.hist = flat(prefix)
 		in2.begin(true)
 		in2.lite = true
@@ -161,6 +168,9 @@ func (e *explorer) exploreState(in *inst, prefix []event, used int) {
 		np := append(append([]event{}, prefix...), event{Body: body})
 		e.exploreState(in2, np, used+len(body)+2)
 		in2.close()
+		if e.onExec != nil {
+			e.onExec(in)
+		}
 	}
 	if rem >= 1 && !(len(prefix) > 0 && prefix[len(prefix)-1].Reopen) && (!top || e.shard == 0) {
 		in.hist = flat(prefix)
